@@ -166,14 +166,17 @@ package db
 // the allow-list key of an attachment: the same function is used when a sent revision adds its attachments
 // to the allow-list (addAllowedAttachments) and when they are taken off it again
 //@ func allowedAttachmentKey
+//@   props C02 C14
 //@   pure
 
 //@ func BlipSyncContext.allowedAttachment
+//@   props C02 C14
 //@   ensures[entry] result == bsc.allowedAttachments[digest]
 
 // getAttachment: the attachment of (docID, digest) is read from storage (and then placed in the response) only
 // if that pair is on the connection's allow-list, i.e. belongs to a revision this connection is being sent.
 //@ func blipHandler.handleGetAttachment
+//@   props C02 C14
 //@   requires bh != nil && bh.BlipSyncContext != nil
 //@   modifies *
 //@   before[allow-listed] call MakeAttachmentKey#1 bh.allowedAttachments[allowedAttachmentKey($1, $2, bh.activeCBMobileSubprotocol)].counter > 0
